@@ -252,9 +252,15 @@ def main(argv=None):
             a_.get('distinct', 0), a_.get('exhaustive'), a_.get('unknown', 0), a_.get('solver_s', 0),
             a_.get('solver_queries', 0), a_.get('cpu_s', 0)))
     if violations:
+        seen = set()
         for v in violations:
+            k = (v['harness'], v.get('signature'))
+            if k in seen or len(seen) >= 8:
+                continue
+            seen.add(k)
             print('  violation: %s[%s] %s' % (v['harness'], v.get('impl'), (v.get('msg') or '')[:600]))
             print('VIOLATION property=%s replay=%s' % (prop, v['replay']))
+        print('  (%d counterexamples replayed and reproduced in total; all listed in the evidence file)' % len(violations))
         return EXIT_VIOLATION
     if harness_errors:
         for e in harness_errors:
